@@ -161,4 +161,49 @@ void h_trypass(void) {
   __CPROVER_assert(g_w < 0 || g_w < g_base0 || Q.ptr[g_w] == g_wv, "trypass: every other element (still in the queue) is preserved");
   VERIF_CANARY();
 }
-void * real_malloc(size_t n) { void * p = malloc(n); __CPROVER_assume(p != 0); return p; }
+size_t g_alloc_sz; int g_allocs;
+void * real_malloc(size_t n) { g_alloc_sz = n; if (g_allocs < 2) g_allocs++; void * p = malloc(n); __CPROVER_assume(p != 0); return p; }
+
+/* ---- init / clear / pass ---- */
+void lock_init_contract(myth_spinlock_t * l)
+  __CPROVER_requires(l == &Q.lock) __CPROVER_assigns(g_lock_held, g_lock_calls, g_unlock_calls)
+  __CPROVER_ensures(g_lock_held == 0 && g_lock_calls == 0 && g_unlock_calls == 0);
+void h_init(void) {
+  __CPROVER_havoc_object(&Q);
+  g_allocs = 0; g_lock_held = 1; g_lock_calls = 7; g_unlock_calls = 3;
+  int k = nondet_int();
+  myth_queue_init(&Q);
+  __CPROVER_assert(Q.size == INITIAL_QUEUE_SIZE && Q.size >= 2, "init: the configured capacity");
+  __CPROVER_assert(g_allocs == 1 && g_alloc_sz == sizeof(myth_thread_t) * (size_t)Q.size, "init: storage of exactly `size` cells");
+  __CPROVER_assert(Q.base == Q.top && 0 < Q.base && Q.base < Q.size, "init: empty view, centred strictly inside the storage (room on both sides)");
+  __CPROVER_assert(g_lock_held == 0 && g_lock_calls == 0, "init: the queue lock is initialised, unlocked");
+  __CPROVER_assume(0 <= k && k < Q.size);
+  __CPROVER_assert(Q.ptr[k] == 0, "init: every cell starts NULL");
+  VERIF_CANARY();
+}
+/* clear runs at worker start-up and shut-down only (myth_worker_start_ex_body, myth_queue_fini): no other worker operates
+   on the queue then (assumption), so obtaining the lock is no interference point here */
+void lock_quiescent_contract(myth_spinlock_t * l)
+  __CPROVER_requires(l == &Q.lock && g_lock_held == 0)
+  __CPROVER_assigns(g_lock_held, g_lock_calls)
+  __CPROVER_ensures(g_lock_held == 1 && g_lock_calls == __CPROVER_old(g_lock_calls) + 1);
+void h_clear(void) {
+  setup(0, 0);
+  __CPROVER_assume(Q.base == Q.top);          /* clear is called on an empty queue only (myth_assert in the body) */
+  myth_queue_clear(&Q);
+  __CPROVER_assert(WF() && LOCKS_BALANCED() && g_lock_calls == 1, "clear: well formed, done under the queue lock, lock released");
+  __CPROVER_assert(Q.base == Q.top && Q.base == Q.size / 2, "clear: empty view re-centred");
+  VERIF_CANARY();
+}
+/* pass = retry trypass until it succeeds */
+int g_tp_calls, g_tp_ok;
+int trypass_contract(myth_thread_queue_t q, myth_thread_t th)
+  __CPROVER_requires(q == &Q && th == (myth_thread_t)&CELL[0] && g_tp_ok == 0 && "no further attempt after a successful one (the thread would be queued twice)")
+  __CPROVER_assigns(g_tp_calls, g_tp_ok)
+  __CPROVER_ensures((__CPROVER_return_value == 0 || __CPROVER_return_value == 1) && g_tp_ok == __CPROVER_return_value && g_tp_calls == 1);
+void h_pass(void) {
+  g_tp_calls = 0; g_tp_ok = 0;
+  myth_queue_pass(&Q, (myth_thread_t)&CELL[0]);
+  __CPROVER_assert(g_tp_ok == 1 && g_tp_calls == 1, "pass: returns only after exactly one successful trypass of that thread");
+  VERIF_CANARY();
+}
